@@ -307,6 +307,12 @@ YAML_INVALID = [
     ("malformed-ip", "client", None, [("VENDOR_ID_3GPP", "DIAMETER_APPLICATION_Gx")], "127.0.0.256", "30"),
     ("non-integer-timeout", "client", None, [("VENDOR_ID_3GPP", "DIAMETER_APPLICATION_Gx")], "127.0.0.1", "soon"),
     ("float-timeout", "client", None, [("VENDOR_ID_3GPP", "DIAMETER_APPLICATION_Gx")], "127.0.0.1", "1.5"),
+    # values of another YAML type where a word is expected
+    ("mode-not-a-string", "1", None, [("VENDOR_ID_3GPP", "DIAMETER_APPLICATION_Gx")], "127.0.0.1", "30"),
+    ("mode-a-list", "[client]", None, [("VENDOR_ID_3GPP", "DIAMETER_APPLICATION_Gx")], "127.0.0.1", "30"),
+    ("transport-not-a-string", "client", "7", [("VENDOR_ID_3GPP", "DIAMETER_APPLICATION_Gx")], "127.0.0.1", "30"),
+    ("ip-not-a-string", "client", None, [("VENDOR_ID_3GPP", "DIAMETER_APPLICATION_Gx")], "[127, 0, 0, 1]", "30"),
+    ("app-constant-not-a-string", "client", None, [("VENDOR_ID_3GPP", "16777238")], "127.0.0.1", "30"),
     # unknown keys: a misspelt optional key in the entry, an extra key in the entry, an extra key under local
     ("unknown-key-misspelt", "client", "sctp", [("VENDOR_ID_3GPP", "DIAMETER_APPLICATION_Gx")], "127.0.0.1", "30"),
     ("unknown-key-entry", "client", None, [("VENDOR_ID_3GPP", "DIAMETER_APPLICATION_Gx")], "127.0.0.1", "30"),
